@@ -632,7 +632,7 @@ def r9_same_rejections_as_a_model(R, sh) -> None:
     except AnchorMissing:
         R.violation(Q, 'linker-accepts-contradictory-limits',
                     'BaseLinker.solve_t() has no `min_iter > max_iter` rejection: solve_t(t, min_iter=9, max_iter=3) runs 3 iterations and records F where the model alone raises '
-                    'ValueError (only BaseLinker.solve() checks)', where=sh.fi.where)
+                    'ValueError (only BaseLinker.solve() checks)', where=sh.fi.where, mismatch=True)
     # ... and what it does about non-finite values (errors=): the linker accepts the option and hands it to the submodels'
     # evaluation, but the pass loop itself must apply the policy too (E / S statuses, SolutionError, replace)
     from fsa.match import nonfinite_test
@@ -649,7 +649,7 @@ def r9_same_rejections_as_a_model(R, sh) -> None:
     if not feas:
         R.violation(Q, 'linker-serves-infeasible-period',
                     'BaseLinker.solve_t() does not check that period t can accommodate the lags and leads: for a submodel with Y[-1], linker.solve_t(0) returns True with the lag read '
-                    'from the last period of the span (the model alone raises IndexError)', where=sh.fi.where)
+                    'from the last period of the span (the model alone raises IndexError)', where=sh.fi.where, mismatch=True)
     else:
         work = sh.n_eval
         R.check(all(not f.cfg.reaches(work.id, r_.id) for r_ in feas), Q, 'linker-rejects-infeasible-period', 'a period that cannot accommodate the lags / leads is rejected before any work',
